@@ -275,7 +275,8 @@ META = {
             "the found image or the floor of the scaled position; the two matchers are siblings with identical guards; extend_system "
             "creates offsets only along periodic axes, lists 0 first and every offset once, and records index/offset/position per "
             "image; the neighbour query uses the bin layout of init() with clamped ranges and a <= cutoff predicate. Numeric "
-            "completeness for arbitrary cell shapes is not decided.",
+            "completeness for arbitrary cell shapes is not decided."
+            " Also: no variable of the matching loop is carried from one position to the next, the acceptance test uses the given tolerance itself, and the Python entry points hand their arguments to the extension exactly as given (reaching definitions), so images refer to the caller's coordinates.",
     "note": "trusted: clang 14 AST with stub pybind11 headers; CPython ast.",
     "technique": "path enumeration with None-tracking + sibling agreement + clang-AST structural rules",
 }
